@@ -1,8 +1,9 @@
-// integer-vector indexing of rank-3 views, patterns not starting with an index vector (see drv_views_idx.h)
-#define IX_FIRST_MASK 0x1f
+// integer-vector indexing of rank-3 views: entry point, and the patterns starting with a scalar (see drv_views_idx.h)
+#define IX_FIRST_MASK 0x03
 #include "drv_views_idx.h"
 std::string ix_op(Array<3,int>& a, const std::vector<std::string>& w) {
   std::vector<ISel> t = ix_parse<3>(w);
-  if (t[0].letter == L_V) return ix_op3_vec_first(a, t);
+  if (t[0].letter == L_V || t[0].letter >= L_U0) return ix_op3_vec_first(a, t);
+  if (t[0].letter == L_R || t[0].letter == L_A) return ix_op3_range_first(a, t);
   return ix_go<3>(a, t);
 }
